@@ -1388,8 +1388,22 @@ pub fn gen_valid(rng: &mut Rng, cfg: &GenCfg, ptr: usize) -> Project {
                 } else {
                     (None, Some(marker("EPILOGUE")))
                 };
+                // Now and then a block is simply the previous one again (same text twice is
+                // legal and both must come out).
+                let (prologue, epilogue, braced) = match g.p.modules[m].backends.last() {
+                    Some(prev) if g.rng.chance(1, 5) => {
+                        (prev.prologue.clone(), prev.epilogue.clone(), prev.braced)
+                    }
+                    _ => (prologue, epilogue, braced),
+                };
+                let name = match g.p.modules[m].backends.last() {
+                    Some(prev) if prologue == prev.prologue && epilogue == prev.epilogue => {
+                        prev.name.clone()
+                    }
+                    _ => name.to_string(),
+                };
                 g.p.modules[m].backends.push(BackendBlock {
-                    name: name.to_string(),
+                    name,
                     prologue,
                     epilogue,
                     braced,
@@ -1417,6 +1431,38 @@ pub fn gen_valid(rng: &mut Rng, cfg: &GenCfg, ptr: usize) -> Project {
             k += 1;
         }
         g.p.modules[m].order = shuffled;
+    }
+    // Now and then a module lives in a directory that is called like an item of the module
+    // "above" it (`game.pyxis` declares `Entity`, and there is `game/Entity/inner.pyxis`).
+    if nmod >= 2 && g.rng.chance(1, 8) {
+        let x = g.rng.below(nmod);
+        let names: Vec<String> = g
+            .p
+            .items
+            .iter()
+            .filter(|it| it.module == x)
+            .map(|it| it.name.clone())
+            .collect();
+        if !names.is_empty() {
+            let mut y = g.rng.below(nmod);
+            if y == x {
+                y = (y + 1) % nmod;
+            }
+            // Only when no other module's path hangs below y's.
+            let ypath = g.p.modules[y].path.clone();
+            let has_children = g
+                .p
+                .modules
+                .iter()
+                .enumerate()
+                .any(|(k, m)| k != y && m.path.len() > ypath.len() && m.path[..ypath.len()] == ypath[..]);
+            if !has_children {
+                let mut path = g.p.modules[x].path.clone();
+                path.push(g.rng.pick(&names).clone());
+                path.push(format!("inner{y}"));
+                g.p.modules[y].path = path;
+            }
+        }
     }
     g.p
 }
